@@ -62,6 +62,9 @@ def filter_events(i0, cond, cterm, doc, entries=("filter", "data_filter", "test_
                 fd = None
             elif entry == "filter":
                 out, fd = outcome_of(lambda: cond.filter(doc))
+            elif entry == "filter_src":
+                # the public source_data keyword: immaterial to a condition without data-path arguments
+                out, fd = outcome_of(lambda: cond.filter(doc, source_data=doc))
             elif entry == "data_filter":
                 out, fd = outcome_of(lambda: valida.Data(doc).filter(cond))
             else:
@@ -170,7 +173,7 @@ def run(rep, tier, seed):
             if rec["datum"] == "index" and not isinstance(doc, list) and random.Random(len(events)).random() < 0.8:
                 continue
             try:
-                ents = ("filter", "data_filter", "test_all")
+                ents = ("filter", "data_filter", "test_all", "filter_src")
                 if len(doc) == 1 and cterm.get("t") == "leaf" and (rec["datum"] == "value" or (rec["datum"] == "key" and isinstance(doc, dict))):
                     ents = ents + ("test",)
                 evs = filter_events(len(events) + 1, obj, cterm, doc, entries=ents)
